@@ -28,6 +28,21 @@ var curVariant = "plain"
 func genSerBM(c *Ctx) *BM {
 	r := c.R
 	o := GenOpts{MaxChunks: 6, HeavyP: 0.35}
+	if r.Chance(0.15) {
+		// 1..150 chunks with a couple of values each (chunk-count edges of reused receivers, header sizes)
+		n := 1 + r.Intn(150)
+		m := NewISet()
+		base := r.Range(0, 65535-uint64(n))
+		for k := uint64(0); k < uint64(n); k++ {
+			lo := (base+k)<<16 | r.Range(0, 65000)
+			m.AddRange(lo, lo+r.Range(0, 5))
+		}
+		f := formsNoZC[r.Intn(len(formsNoZC))]
+		if bm, es := buildForm(r, m, f); es == "" {
+			c.Step("bitmap with %d small chunks form=%s", n, f)
+			return bm
+		}
+	}
 	switch r.Intn(12) {
 	case 0:
 		o.Keys = []uint64{}
@@ -109,6 +124,21 @@ func (fw *failWriter) Write(p []byte) (int, error) {
 // previous contents for a reused receiver
 func reusedReceiver(c *Ctx) (*roaring.Bitmap, string) {
 	r := c.R
+	if r.Chance(0.3) {
+		// a receiver whose tables grew by appends to N chunks (capacities of the three parallel slices
+		// round to different allocation classes), optionally cleared
+		n := 1 + r.Intn(150)
+		b := roaring.New()
+		for k := 0; k < n; k++ {
+			b.Add(uint32(k)<<16 | uint32(r.Intn(65536)))
+		}
+		how := "previously-grown-by-appends"
+		if r.Chance(0.4) {
+			b.Clear()
+			how += "-then-cleared"
+		}
+		return b, how
+	}
 	switch r.Intn(5) {
 	case 0:
 		return roaring.New(), "fresh"
